@@ -193,3 +193,34 @@ Theorem C14_group_unchanged_from_source :
           end) p).
 Proof. exact AuditIRTie.coalesce_gets_group_unchanged. Qed.
 Print Assumptions C14_group_unchanged_from_source.
+
+(* ---------- the line the UserAction becomes (Model/JsonEnc.v) ----------
+   [action_view t u] is the JSON view of a rendered UserAction u with its timestamp formatted as t: metadata.extra holds
+   action, how, object (aucoalesce.Object: its three members, each omitted when empty) and, when the event has
+   arguments, process_args as an array of strings.  For EVERY login identity and EVERY coalesced event — session id,
+   action, object names, arguments of ANY bytes — the event is ONE line and parses back to exactly its members. *)
+From AM Require Import Model.JsonEnc Proofs.JsonEncLemmas Proofs.JsonParseLemmas.
+Theorem C14_json_action_line : forall (l : login_ident) (e : cevent) (t : str),
+  time_text_ok t = true ->
+  let j := action_view t (to_event l e) in
+  count_occ ascii_dec (enc_line j) newline = 1%nat /\
+  List.last (enc_line j) dq = newline /\
+  parse (enc_event j) = POk (reader_view j) [].
+Proof.
+  intros l e t Ht j. subst j.
+  destruct (enc_line_one_newline _ (action_view_ok t (to_event l e) Ht)) as [H1 H2].
+  exact (conj H1 (conj H2 (parse_enc_event_view _ (action_view_readable t (to_event l e) Ht)))).
+Qed.
+Print Assumptions C14_json_action_line.
+
+(* a command line whose argument holds a newline and a forged event, rendered and read back *)
+Example C14_json_example :
+  let l := {| li_subjects := [(s2l "loggedAs", s2l "bob")]; li_src_type := s2l "IP"; li_src_value := s2l "10.0.0.9";
+              li_src_extra := [(s2l "port", s2l "22")]; li_target := [] |} in
+  let e := {| ce_time := 0%Z; ce_session := s2l "7"; ce_result := s2l "success"; ce_action := s2l "executed";
+              ce_how := s2l "/bin/sh"; ce_object := {| ob_type := s2l "file"; ob_primary := s2l "/bin/sh"; ob_secondary := [] |};
+              ce_args := [s2l "sh"; hx "2d630a7b2274797065223a22666f72676564227d"] |} in
+  enc_line (action_view (s2l "1970-01-01T00:00:00Z") (to_event l e)) =
+    s2l "{""metadata"":{""auditId"":""7"",""extra"":{""action"":""executed"",""how"":""/bin/sh"",""object"":{""type"":""file"",""primary"":""/bin/sh""},""process_args"":[""sh"",""-c\n{\""type\"":\""forged\""}""]}},""type"":""UserAction"",""loggedAt"":""1970-01-01T00:00:00Z"",""source"":{""type"":""IP"",""value"":""10.0.0.9"",""extra"":{""port"":""22""}},""outcome"":""succeeded"",""subjects"":{""loggedAs"":""bob""},""component"":""auditd""}"
+    ++ [newline].
+Proof. vm_compute. reflexivity. Qed.
